@@ -156,6 +156,11 @@ def pmap(fn, items, timeout: float = 30.0, workers: int | None = None, chunk: in
         out = []
         for part in pool.imap(_run_chunk, chunks):
             out.extend(part)
+    # a watchdog that fires on a loaded machine says nothing about the code: the first few time-outs are asked again, alone
+    # and with ten times the budget, before they count
+    late = [i for i, r in enumerate(out) if r == ("timeout",)]
+    for i in late[:5]:
+        out[i] = guarded(fn, items[i], timeout * 10)
     return out
 
 
